@@ -389,19 +389,33 @@ class _MergedCircuit:
             List of mergeable components.
         """
         # Find the index of previous moment which can be merged with `c`.
-        idx = max(
+        key_idx = max(
             itertools.chain(
-                (self.qubit_indexes[q][-1] for q in c_qs),
-                (self.mkey_indexes[ckey][-1] for ckey in c.ckeys),
-                (self.ckey_indexes[mkey][-1] for mkey in c.mkeys),
+                (self.mkey_indexes[ckey][-1] for ckey in c.ckeys if self.mkey_indexes[ckey]),
+                (self.ckey_indexes[mkey][-1] for mkey in c.mkeys if self.ckey_indexes[mkey]),
+                (self.mkey_indexes[mkey][-1] for mkey in c.mkeys if self.mkey_indexes[mkey]),
             ),
             default=-1,
         )
+        idx = max(itertools.chain((self.qubit_indexes[q][-1] for q in c_qs), (key_idx,)), default=-1)
         # Return the set of overlapping components in moment with index `idx`.
         if idx == -1:
             return []
 
-        return [c for c in self.components_by_index[idx] if not c_qs.isdisjoint(c.qubits)]
+        mergeable = [x for x in self.components_by_index[idx] if not c_qs.isdisjoint(x.qubits)]
+        if key_idx == idx:
+            # `c` depends through a measurement key on a component of this moment: it may only
+            # join the moment by merging with that very component.
+            c_mkeys, c_ckeys = set(c.mkeys), set(c.ckeys)
+            for x in self.components_by_index[idx]:
+                depends = (
+                    not c_ckeys.isdisjoint(x.mkeys)
+                    or not c_mkeys.isdisjoint(x.ckeys)
+                    or not c_mkeys.isdisjoint(x.mkeys)
+                )
+                if depends and x not in mergeable:
+                    return []
+        return mergeable
 
     def can_move_right(self, c: Component) -> bool:
         """Whether `c` can move to a later moment without crossing an operation on its keys.
